@@ -16,6 +16,17 @@ use crate::tomlleg::{TomlCase, TomlHost};
 use crate::values::{self, GenStats, Val};
 use crate::Case;
 
+/// Quick tier: only a thin validity-gate lattice for biased exponent `index`.
+pub fn thin_lattice_cases(base: u64, index: u64, st: &mut GenStats) -> (Val, Vec<Case>) {
+    let mut r = Rng::new(run_seed(base ^ 0x7A77_1CE5, index));
+    let v = values::gen_value(&mut r, st);
+    let mut out = Vec::new();
+    if index <= 2047 {
+        lattice_cases(index, &mut r, &mut out, true);
+    }
+    (v, out)
+}
+
 pub fn sweep_cases(base: u64, index: u64, st: &mut GenStats) -> (Val, Vec<Case>) {
     let mut r = Rng::new(run_seed(base ^ 0x5_3EE9_5EE9, index));
     let v = values::gen_value(&mut r, st);
@@ -26,7 +37,7 @@ pub fn sweep_cases(base: u64, index: u64, st: &mut GenStats) -> (Val, Vec<Case>)
     // ---- formatting: every chunk index and every capacity, both sink kinds of failure
     for tr in [Tr::Display, Tr::LowerExp, Tr::UpperExp] {
         for plus in [false, true] {
-            for prec in [None, Some(0usize), Some(1), Some(17), Some(40)] {
+            for prec in [None, Some(0usize), Some(1), Some(17), Some(40), Some(300)] {
                 let base_case = FmtCase { hi, lo, tr, plus, prec, sink: SinkPlan::default(), io: None };
                 let (nchunks, nbytes) = match guarded(|| fmtleg::render_ideal(&x, &base_case)) {
                     Ok((_, text, n)) => (n, text.len()),
@@ -56,6 +67,15 @@ pub fn sweep_cases(base: u64, index: u64, st: &mut GenStats) -> (Val, Vec<Case>)
                     out.push(Case::Fmt(FmtCase { io: Some(WriterPlan { zero_at_call: Some(k), ..Default::default() }), ..base_case.clone() }));
                 }
                 out.push(Case::Fmt(FmtCase { io: Some(WriterPlan { max_chunk: Some(1), ..Default::default() }), ..base_case.clone() }));
+            }
+        }
+    }
+
+    // ---- formatting, fault-free: every precision 0..=64 and a few large ones, every trait and flag
+    for tr in [Tr::Display, Tr::LowerExp, Tr::UpperExp] {
+        for plus in [false, true] {
+            for p in (0usize..=64).chain([100, 127, 128, 255, 256, 257, 511, 512, 1000, 1100]) {
+                out.push(Case::Fmt(FmtCase { hi, lo, tr, plus, prec: Some(p), sink: SinkPlan::default(), io: None }));
             }
         }
     }
@@ -177,5 +197,85 @@ pub fn sweep_cases(base: u64, index: u64, st: &mut GenStats) -> (Val, Vec<Case>)
             out.push(Case::Toml(TomlCase { base: text.clone(), base_kind: format!("sweep/{:?}", host), host, faults: vec![ByteFault::Truncate { len: k }] }));
         }
     }
+    // ---- validity-gate lattice: sweep index i also stands for the biased exponent i of the
+    // delivered high word (0 = zero/subnormal, 2047 = non-finite); every threshold
+    // neighbourhood of the low word, delivered as seq and as map in both key orders
+    if index <= 2047 {
+        lattice_cases(index, &mut r, &mut out, false);
+    }
     (v, out)
+}
+
+fn lattice_cases(e: u64, r: &mut Rng, out: &mut Vec<Case>, thin: bool) {
+    use crate::values::{next_down_bits, next_up_bits, pow2, MANT_MASK, SIGN};
+    let mants: Vec<u64> = if thin {
+        vec![0, 1, MANT_MASK, r.next_u64() & MANT_MASK & !1, (r.next_u64() & MANT_MASK) | 1]
+    } else { vec![
+        0,
+        1,
+        2,
+        3,
+        MANT_MASK,
+        MANT_MASK - 1,
+        MANT_MASK - 2,
+        1 << 51,
+        (1 << 51) | 1,
+        0xA_AAAA_AAAA_AAAA & MANT_MASK,
+        0x5_5555_5555_5555 & MANT_MASK,
+        r.next_u64() & MANT_MASK,
+        r.next_u64() & MANT_MASK & !1,
+        (r.next_u64() & MANT_MASK) | 1,
+    ] };
+    for m in mants {
+        for hs in [0u64, SIGN] {
+            let hi = hs | (e << 52) | m;
+            let hf = f64::from_bits(hi);
+            let mut los: Vec<u64> = if thin {
+                vec![0, 1, f64::INFINITY.to_bits(), f64::NAN.to_bits()]
+            } else {
+                vec![0, 1, 2, f64::INFINITY.to_bits(), f64::NAN.to_bits(), f64::MAX.to_bits(), hi & !SIGN, r.next_u64() & !SIGN]
+            };
+            if hf.is_normal() {
+                let ex = values::exponent(hf);
+                let ks: &[i32] = if thin { &[-53, -54] } else { &[-52, -53, -54, -55, -51] };
+                for k in ks.iter().map(|d| ex + d) {
+                    if (-1074..=1023).contains(&k) {
+                        let t = pow2(k).to_bits();
+                        los.extend([t, next_up_bits(t), next_down_bits(t), next_up_bits(next_up_bits(t)), t | (r.next_u64() & MANT_MASK)]);
+                    }
+                }
+                // something comfortably inside
+                if ex - 60 >= -1074 {
+                    los.push(pow2(ex - 60).to_bits() | (r.next_u64() & MANT_MASK));
+                }
+            }
+            los.sort_unstable();
+            los.dedup();
+            for l in los {
+                for ls in [0u64, SIGN] {
+                    let lo = l | ls;
+                    let modes: &[(Mode, bool)] = if thin { &[(Mode::Seq, false), (Mode::Map, true)] } else { &[(Mode::Seq, false), (Mode::Map, false), (Mode::Map, true)] };
+                    for (mode, lo_first) in modes.iter().copied() {
+                        let (e_hi, e_lo) = if lo_first { (1, 0) } else { (0, 1) };
+                        out.push(Case::De(DeCase {
+                            hi: 1.0f64.to_bits(),
+                            lo: 0,
+                            mode,
+                            lo_first,
+                            kinds: vec![KeyKind::Str],
+                            faults: vec![
+                                StorageFault::SetWord { entry: e_hi, bits: hi, label: "lattice_hi".into() },
+                                StorageFault::SetWord { entry: e_lo, bits: lo, label: "lattice_lo".into() },
+                            ],
+                            hint: Hint::Exact,
+                            strict_end: true,
+                            access_fault: None,
+                            honour_fields: false,
+                            human_readable: true,
+                        }));
+                    }
+                }
+            }
+        }
+    }
 }
